@@ -100,6 +100,9 @@ def main(args):
         os.makedirs(logdir, exist_ok=True)
         env = dict(os.environ)
         env["TSAN_OPTIONS"] = "halt_on_error=0:log_path=%s/tsan:second_deadlock_stack=1:history_size=4:exitcode=0" % logdir
+        if n >= 2 and (seed % 2 == 0 or n in (4, 16)):
+            # some threads scan data that faults (a mapping longer than its file): SIGBUS handled by the library
+            env["YRMT_FAULTS"] = "1"
         cmd = [exe, rules, base, str(n), str(it), str(seed), str(yld)] + files + ([big] if with_big else [])
         w = dict(cmd=" ".join(cmd), threads=n, iterations=it, yield_points=bool(yld))
         try:
@@ -123,6 +126,11 @@ def main(args):
             chk.violation("scan-result-differs-under-concurrency", dict(w, mismatches=d["mismatches"], first=d["first_mismatch"]))
         if d["usecount"] != 0 or not d["handlers_restored"]:
             chk.violation("signal-handler-state-after-quiescence", dict(w, usecount=d["usecount"], restored=d["handlers_restored"]))
+        stats["fault_scans"] = stats.get("fault_scans", 0) + d.get("fault_scans", 0)
+        if d.get("fd_closed"):
+            chk.violation("descriptor-closed-by-library", dict(w, scans_that_lost_their_descriptor=d["fd_closed"]))
+        if d.get("fault_wrong_rc"):
+            chk.violation("faulting-scan-not-reported-as-could-not-map", dict(w, fault_scans=d["fault_scans"], wrong=d["fault_wrong_rc"]))
         if d["early_timeouts"]:
             chk.violation("timeout-reported-before-deadline", dict(w, early_timeouts=d["early_timeouts"], timed_scans=d["timed_scans"]))
         seen = set()
@@ -146,7 +154,8 @@ def main(args):
              "string, boolean and float externals encode the thread id; every thread runs a shuffled list of scans "
              "(yr_rules_scan_mem, scanner scan_mem/scan_file/scan_fd/scan_mem_blocks on text, random, PE, PE32+, .NET, "
              "ELF data; 20% ended by CALLBACK_ABORT/ERROR at message 0, 3 or 7; scanners destroyed and re-created "
-             "while others scan) and compares a hash of the callback sequence and match lists with the reference "
+             "while others scan; in part of the runs some scans read a mapping that is longer than its file, so the "
+             "library's SIGBUS handler runs while other threads are inside their protected regions) and compares a hash of the callback sequence and match lists with the reference "
              "recorded single-threaded in the same process for that (thread id, buffer, entry point, abort position). "
              "Built with -fsanitize=thread; H3 yield points inject sched_yield/usleep between scan phases and record "
              "which phases of different threads were seen concurrently. evaluations = scans run in threads; "
@@ -154,7 +163,7 @@ def main(args):
         samples=stats["samples"],
         extra={"runs": len(runs), "reference_scans": stats["refs"], "yield_points_hit": stats["points"],
                "max_distinct_overlapping_phase_pairs(of 49)": stats["pairs"], "tsan_reports_after_dedup": stats["tsan_reports"],
-               "timed_scans_with_real_timeout": stats["timed"]},
+               "timed_scans_with_real_timeout": stats["timed"], "faulting_scans(SIGBUS handled by the library)": stats.get("fault_scans", 0)},
         assumptions=["schedules are sampled, not enumerated; TSan only sees races between accesses that both occur in a run",
                      "a timeout is only judged when it is reported BEFORE the deadline on the monotonic clock"],
         min_nontrivial=6)
